@@ -126,6 +126,21 @@ func c08Run(s *c08Scn, version, segName string) verdict {
 		sess.srv.HoldEcho = s.Policy[j] == "lateecho"
 		sess.pipe.Unlock()
 
+		if j > 0 && s.idx%3 == 2 && s.Policy[j] == "now" && s.Policy[j-1] == "now" {
+			// between two calls the server sends a message that is neither a reply nor a message of a subscription (an RFC 5277
+			// notification without subscription-id): it is nobody's, and it must not stick to the reply that follows
+			note := []byte(fmt.Sprintf(`<notification xmlns="urn:ietf:params:xml:ns:netconf:notification:1.0"><eventTime>2026-01-01T00:00:0%dZ</eventTime><event><n>%d</n></event></notification>`, j%10, j))
+			if version == "1.1" {
+				note = simdev.Frame11(note, []int{len(note)})
+			} else {
+				note = simdev.Frame10(note)
+			}
+
+			sess.pipe.Inject(note)
+			sess.pipe.WaitDrained(time.Second)
+			time.Sleep(3 * time.Millisecond)
+		}
+
 		if s.Policy[j] == "werr" {
 			// the framed message goes out, the write of the return after it fails (1.1: the last of the two returns)
 			n := 1
